@@ -78,6 +78,13 @@ def run(rep, tier):
     rep.rule("R8", "per table entry the emitted address bytes add up to the advance of the previous-offset tracker and the line bytes to that of the previous-line "
                    "tracker: emitted + residual is invariant over every straight-line segment and one iteration of every chunking loop; a path that skips an entry "
                    "leaves the trackers alone")
+    rep.rule("R10", "the line-start routines that decode what freeze() wrote obey the decoder rules of C05 (R1-R3, R5, R6: lnotab automaton per version, 3.10 co_lines pairs, "
+                    "findlinestarts over co_lines, per-table binding), restated")
+    from . import c05
+    from ..report import SubReport, merge_sub
+    sub = SubReport("C05", tier=tier)
+    c05.run(sub, tier)
+    merge_sub(rep, sub, "R10", "C05", only_rules=("R1", "R2", "R3", "R5", "R6"))
     repo = get_repo()
     n_enc = 0
     for mod, cname in CLASSES:
